@@ -172,6 +172,8 @@ def run(ctx, n_seq=None):
     for b in list(sc.MALFORMED_INSCOPE) + list(sc.MALFORMED_OUT) + [s for _, s in nc.specials()][:40]:
         check_sequence(ctx, a, [(1, b)], 'fixed-bad-line-inside-message')
     neighbour_slot_cases(ctx)
+    many_pending_slots(ctx)
+    preprocessor_cases(ctx)
 
 
 def neighbour_slot_cases(ctx):
@@ -191,12 +193,82 @@ def neighbour_slot_cases(ctx):
                     check_sequence(ctx, good, [(where, bad)], 'damaged-fragment-in-neighbour-slot')
 
 
+def many_pending_slots(ctx):
+    """An intact two-fragment message with 70..150 malformed-but-parseable fragment lines of OTHER slots between its
+    fragments (damaged sequence id / channel fields: ids 10..99, channels X, Y, Z): none of them shares its slot, so it must
+    be delivered unchanged, by both loops (a bounded table of pending slots shows only here)."""
+    rng = ctx.rng
+    for n in ((70, 150) if ctx.quick else (64, 65, 70, 150, 300)):
+        good = sc.make_message(rng, 0, 2, 3, 'A', bad_checksums=0)
+        bads = []
+        pairs = [(sq, ch) for sq in range(10, 100) for ch in 'XYZ']
+        rng.shuffle(pairs)
+        for sq, ch in pairs[:n]:
+            body = f'AIVDM,2,1,{sq},{ch},55P5TL01VIaAL@7WKO@mBplU@<PDhh000000001S;AJ::4A80?4i@E53,0'.encode()
+            bads.append(b'!' + body + b'*' + format(nc.xor(body), '02X').encode())
+        check_sequence(ctx, good, [(1, b) for b in bads], 'many-pending-slots')
+
+
+class _StripPrefix:
+    """a preprocessor in the style of tests/test_preprocess.py: `[timestamp] <sentence>` -> `<sentence>`; a line without a
+    sentence becomes b''"""
+
+    def process(self, line):
+        return line.split(b'] ', 1)[1] if b'] ' in line else b''
+
+
+def preprocessor_cases(ctx):
+    """Stream readers configured with a preprocessor (non-default): lines that the preprocessor turns into b'' or into
+    garbage must be skipped like any other malformed line -- nothing may escape the iteration and the other messages must
+    still arrive."""
+    import pyais.stream as ps
+    rng, rep = ctx.rng, ctx.rep
+    for rnd in range(ctx.budget(6, 60)):
+        msgs = [sc.make_message(rng, i, rng.choice([1, 2]), rng.choice([1, 2, None]), rng.choice('AB'), bad_checksums=0)
+                for i in range(3)]
+        lines, want = [], 0
+        for m in msgs:
+            for f in m:
+                lines.append(b'[2024-07-19 08:45:28.500] ' + bytes.fromhex(f['hex']) + b'\n')
+            want += 1
+            lines.append(rng.choice([b'[2024-07-19 08:45:28.500] \n', b'[2024-07-19 08:45:28.500]\n', b'no bracket at all here\n',
+                                     b'[x] \n' + b' ' * 12, b'[2024] !\n' + b' ' * 8, b'[2024-07-19 08:45:28.500] $\n']))
+        for name, mk in (('ByteStream', lambda: ps.ByteStream(lines, preprocessor=_StripPrefix())),
+                         ('BinaryIOStream', lambda: ps.BinaryIOStream(__import__('io').BytesIO(b''.join(lines)),
+                                                                      preprocessor=_StripPrefix()))):
+            rep.case(('preprocessor', name, tuple(lines)), kind='preprocessor:' + name)
+            try:
+                got = len(list(mk()))
+            except Exception as e:   # noqa: BLE001
+                rep.violation({'entry': name, 'component': 'reader-loop', 'kind': f'escaped-exception:{type(e).__name__}',
+                               'tbq': False, 'preprocessor': True},
+                              f'{name} with a preprocessor raised {type(e).__name__} while reading {len(lines)} lines '
+                              f'(a line the preprocessor reduces to nothing)',
+                              {'entry': name, 'preprocessor': 'strip-prefix', 'lines': [l.hex() for l in lines]})
+                continue
+            if got != want:
+                rep.violation({'entry': name, 'component': 'deliveries-of-untouched-slots', 'kind': 'lost', 'tbq': False,
+                               'preprocessor': True},
+                              f'{name} with a preprocessor delivered {got} of {want} intact messages',
+                              {'entry': name, 'preprocessor': 'strip-prefix', 'lines': [l.hex() for l in lines], 'want': want})
+
+
 def hunt(ctx):
     run(ctx, n_seq=ctx.budget(600, 3000))
 
 
 def replay(ctx, data):
     lines = [bytes.fromhex(h) for h in data['lines']]
+    if data.get('preprocessor'):
+        import io
+        import pyais.stream as ps
+        try:
+            r = ps.ByteStream(lines, preprocessor=_StripPrefix()) if data['entry'] == 'ByteStream' else \
+                ps.BinaryIOStream(io.BytesIO(b''.join(lines)), preprocessor=_StripPrefix())
+            got = len(list(r))
+        except Exception as e:   # noqa: BLE001
+            return f"{data['entry']} with a preprocessor raised {type(e).__name__}"
+        return None if got == data.get('want', got) else f"{data['entry']} with a preprocessor delivered {got} messages"
     res = sc.run_frontend(data['entry'], lines, data.get('tbq', False))
     if res['exc'] is not None:
         return f"{data['entry']} raised {res['exc']}"
